@@ -18,8 +18,11 @@ def main():
     ap.add_argument("--tier", default=os.environ.get("VERIF_TIER", "quick"))
     ap.add_argument("--replay")
     a = ap.parse_args()
-    if os.environ.get("PYTHONHASHSEED") != "0":
-        os.environ["PYTHONHASHSEED"] = "0"
+    # string hashing (hence set / dict-of-str iteration order) is fixed per VERIF_SEED: reproducible, and different seeds
+    # see different orders
+    hs = str(int(os.environ.get("VERIF_SEED", "0") or 0) % 4294967295)
+    if os.environ.get("PYTHONHASHSEED") != hs:
+        os.environ["PYTHONHASHSEED"] = hs
         os.execv(sys.executable, [sys.executable] + sys.argv)
     os.environ["VERIF_TIER"] = a.tier
     if hasattr(sys, "set_int_max_str_digits"):
